@@ -132,7 +132,7 @@ let () =
     let (sb, sr) = base_rel (get kv "src" "") and (db, dr) = base_rel (get kv "dest" "") in
     let o = copy_opts kv in
     apply_live kv;
-    let globbed = get kv "files" "-" <> "-" || String.contains sr '*' || String.contains sr '?' || String.contains sr '[' in
+    let globbed = get kv "files" "-" <> "-" || has_meta (codes_of_string sr) in
     if get kv "files" "-" = "BADPATTERN" then obs "clicopy err" else
     let jobs =
       if globbed then
@@ -156,7 +156,7 @@ let () =
     let (sb, sr) = base_rel (get kv "src" "") and (db, dr) = base_rel (get kv "dest" "") in
     let ns = nows kv in
     let aid = getz kv "archive" (-1) and from = getz kv "from" 0 and until = getz kv "until" 0 in
-    let globbed = get kv "files" "-" <> "-" || String.contains sr '*' || String.contains sr '?' || String.contains sr '[' in
+    let globbed = get kv "files" "-" <> "-" || has_meta (codes_of_string sr) in
     if get kv "files" "-" = "BADPATTERN" then emit_readonly op kv StErr [] else
     let pairs =
       if globbed then List.map (fun f ->
